@@ -7,9 +7,10 @@ from lib.core import existing_modules
 from props import c10
 
 ID = "C11"
-LEVEL = "other"
-LEAN_MODULES = existing_modules(["Sonic.Props.C11"]) + ["Sonic.Props.C05", "Sonic.Spec.Json"]
-REQUIRED_THEOREMS = []
+LEVEL = "proof"
+LEAN_MODULES = ["Sonic.Props.C11"]
+REQUIRED_THEOREMS = ["Sonic.Props.C11." + n for n in ["C11_in_bounds", "C11_slice", "C11_termination", "C11_kbuf", "C11_getNextToken",
+                                                         "C11_skipString", "C11_skipContainer", "C11_skipSpaceSafe"]]
 CONFIGS = [("avx2", "san"), ("sse", "san"), ("avx2", "prod"), ("sse", "prod")]
 CONFIGS_THOROUGH = CONFIGS + [("dyn", "san"), ("dyn", "prod")]
 RULE = ("arbitrary byte strings: lengths 0,1,15,16,17,31,32,33,63..67,127..130 and random; every prefix of valid texts; single-byte "
@@ -22,8 +23,9 @@ EXPLANATION = ("The literal model reads the input through checked accesses of ex
                "offset, bounds) with the input in an exact-size heap block under ASan and ending at a PROT_NONE page in production builds.")
 ASSUMPTIONS = ["SIMD loads read exactly W (or 64) bytes at the given address"]
 TRUSTED = ["ASan and guard pages as observers of out-of-range reads of the compiled code"]
-LEVEL_TEXT = ("Proof over the checked-access model as listed in the evidence, validated against the compiled code on exact-size and "
-              "page-end buffers; stays at level 'other' until C11_in_bounds is listed among the discharged theorems.")
+LEVEL_TEXT = ("Machine-checked proof (Lean 4): for every byte string, path, key-buffer content and vector width the checked-access model of "
+              "GetOnDemand never reads outside [0,len) (C11_in_bounds), terminates, and a successful result is a sub-range with offset <= len "
+              "(C11_slice); the model is validated against the compiled code on exact-size heap blocks (ASan) and page-end buffers.")
 LEVEL_NOTE = "Trusted: Lean kernel; standard axioms; ASan/guard pages; harness."
 TECHNIQUE = "Lean 4 theorem over a checked-access model + differential correspondence on exact-size / page-end buffers"
 
